@@ -115,6 +115,17 @@ def make_case(rnd, a5, gen):
             cells.append(gen.random_cell(rnd, a5, rnd.randint(r, t)))
         if rnd.random() < 0.3:
             cells.append(gen.random_cell(rnd, a5, rnd.randint(max(0, t - 4), r)))
+    if rnd.random() < 0.08 and t >= 1:
+        # a sorted run of index-consecutive cells of one resolution that crosses segment / face boundaries (what compact returns)
+        r = rnd.randint(1, min(4, t))
+        lvl = sorted(a5.cell_to_children(0, r) if r <= 2 else a5.cell_to_children(rnd.choice(a5.cell_to_children(0, 0)), r) +
+                     a5.cell_to_children(rnd.choice(a5.cell_to_children(0, 0)), r))
+        per = 4 ** (r - 1)
+        start = max(0, per * rnd.randint(1, max(1, len(lvl) // per - 1)) - rnd.randint(1, 3))
+        cells = lvl[start:start + rnd.randint(2, 9)]
+        t = min(t, r + 5)
+        if rnd.random() < 0.3:
+            cells.append(gen.random_cell(rnd, a5, rnd.randint(r, t)))
     if rnd.random() < 0.1:
         cells = tuple(cells)
     return cells, t
